@@ -19,7 +19,9 @@ RULE = (
     "vector of {-1,0,1,2}^n x k in {0,3,-2.5}, as objective (min/max) and as a constraint with each sense in the "
     "operand orders `e <= number`, `number >= e`, `e1 <= e2`; pairs of constraints (thorough); bounds menus; names "
     "whose natural order differs from lexicographic and construction order.  Only problems optyx itself treats as "
-    "LP are in the quantifier (others are counted).  transitions = API calls on the real code (builder ops, "
+    "LP are in the quantifier (others are counted).  Every case that holds cold is repeated on WARM objects: a first "
+    "problem P + zz is built, extracted and solved, then P + A0 (same column count, every column shifted) is built "
+    "from the same variable / vector / matrix objects and checked against its own reference.  transitions = API calls on the real code (builder ops, "
     "extract(), extract_linear_coefficient, extract_constant_term, one captured solve); an evaluation = one "
     "coefficient / right-hand side / bound / column name compared with the exact polynomial of the recipe.  "
     "Non-trivial = LP with a non-zero coefficient; distinct by canonical problem recipe."
@@ -236,12 +238,40 @@ def shards(tier, seed):
     return [(i, NSH) for i in range(NSH)]
 
 
-def check_problem(pr, tier, seed, rep=None, want=None, label=None):
+def shifted(pr, extra):
+    """the same problem with one more scalar variable in the objective (shifts the column positions of all others)"""
+    return ("prob", pr[1], ("bin", "+", pr[2], ("var", extra))) + tuple(pr[3:])
+
+
+def check_warm_objects(pr, tier, seed, rep=None, want=None, label=None):
+    """Non-initial variable / vector objects: a first problem D = P + zz (zz sorts last) is built, extracted and solved,
+    then T = P + A0 (A0 sorts first: same number of columns, every column of P shifted by one) is built from the SAME
+    variable, vector and matrix objects and checked against its own reference."""
+    from optyx import analysis
+
+    D, T = shifted(pr, "zz"), shifted(pr, "A0")
+    try:
+        PD, b, _ = PR.build_problem(D)
+        if not PD._is_linear_problem():
+            return Fails(want)
+        analysis.LinearProgramExtractor().extract(PD)
+        with Seam(script=[lambda call: result(np.zeros(len(call.kw["c"])), fun=0.0)]):
+            PD.solve()
+    except Exception:
+        return Fails(want)          # the cold checks report build / extraction errors
+    fs = check_problem(T, tier, seed, rep, want, label, builder=b)
+    out = Fails()
+    for k, d in fs:
+        out.append((k if want is not None else k + ":warm-objects", d))
+    return out
+
+
+def check_problem(pr, tier, seed, rep=None, want=None, label=None, builder=None):
     from optyx import analysis
 
     fails = Fails(want)
     try:
-        P, b, built = PR.build_problem(pr)
+        P, b, built = PR.build_problem(pr, builder)
     except Exception as ex:
         fails.add("exception:build:" + type(ex).__name__, msg=str(ex)[:200])
         return fails
@@ -388,6 +418,11 @@ def explore(item, tier, seed):
             if kind not in seen:
                 seen.add(kind)
                 rep.violation(kind, {"label": label, "problem": pr}, **d)
+        if not fs:
+            for kind, d in check_warm_objects(pr, tier, seed, rep, label=label):
+                if kind not in seen:
+                    seen.add(kind)
+                    rep.violation(kind, {"label": label, "problem": pr, "warm": True}, **d)
         if rep.states % 301 == 1:
             rep.sample({"label": label, "problem": pr})
     return rep
@@ -401,5 +436,9 @@ def culprit(v):
 
 def replay(art):
     pr = detuple(art["violation"]["case"]["problem"])
-    fs = check_problem(pr, "quick", 0, None, want=art["culprit"]["kind"])
+    kind = art["culprit"]["kind"]
+    if art["violation"]["case"].get("warm"):
+        fs = check_warm_objects(pr, "quick", 0, None, want=kind.replace(":warm-objects", ""))
+        return [{"kind": k + ":warm-objects", "detail": d} for k, d in fs]
+    fs = check_problem(pr, "quick", 0, None, want=kind)
     return [{"kind": k, "detail": d} for k, d in fs]
